@@ -390,6 +390,10 @@ type c20StreamCase struct {
 	// process-wide buffer pool is emptied (two garbage collections) first
 	Other     []int `json:"other,omitempty"` // payload sizes of the other stream's packets
 	FreshPool bool  `json:"fresh_pool,omitempty"`
+	// Boundary > 0: the first packet is a DATA packet whose *encoding* is exactly
+	// this many bytes long (around the 32 KiB pooled buffer, with and without the
+	// 4-byte frame prefix), sent with the process-wide buffer pool emptied
+	Boundary int `json:"boundary,omitempty"`
 }
 
 type fragReader struct {
@@ -445,6 +449,9 @@ func genC20Stream(t *rapid.T) *c20StreamCase {
 		c.Other = rapid.SliceOfN(rapid.SampledFrom([]int{10, 32768, 40000, 70000}), 1, 5).Draw(t, "othersizes")
 		c.FreshPool = rapid.Bool().Draw(t, "freshpool")
 	}
+	if rapid.IntRange(0, 5).Draw(t, "boundary") == 0 {
+		c.Boundary = rapid.IntRange(32768-9, 32768+5).Draw(t, "boundarysize")
+	}
 	return c
 }
 
@@ -455,8 +462,24 @@ func c20CheckStream(env *h.Env, c *c20StreamCase) error {
 	var sent []*types.Packet
 	big := false
 	recycled := &types.Packet{}
+	var built []*types.Packet
+	if c.Boundary > 0 {
+		bp := &types.Packet{Type: types.PACKET_DATA, ID: 7, Data: make([]byte, c.Boundary)}
+		for len(bp.Data) > 0 && bp.SizeVT() > c.Boundary {
+			bp.Data = bp.Data[:len(bp.Data)-1]
+		}
+		for i := range bp.Data {
+			bp.Data[i] = byte(i * 7)
+		}
+		built = append(built, bp)
+		env.Class("encoding-at-the-pooled-buffer-size")
+		runtime.GC()
+		runtime.GC()
+	}
 	for _, mp := range c.Packets {
-		p := mp.build(false)
+		built = append(built, mp.build(false))
+	}
+	for _, p := range built {
 		sent = append(sent, p)
 		if c.Reuse {
 			recycled.Type, recycled.Stat, recycled.ID, recycled.Data = p.Type, p.Stat, p.ID, p.Data
